@@ -467,7 +467,7 @@ async fn scenario(sh: &Arc<Shared>) {
             sh.clients_done.store(true, Ordering::SeqCst);
             for h in rs { let _ = h.await; }
             // quiescent reads of everything
-            for h in read_all_acked(sh, 100).await { let _ = h.await; }
+            for h in read_all_acked(sh, 9000).await { let _ = h.await; }
         }
         // C15 witness: hold the writer between the index swap and the reader-pool installation of a
         // rollover and read every acknowledged event / version meanwhile
@@ -492,7 +492,7 @@ async fn scenario(sh: &Arc<Shared>) {
                 }
                 if in_window {
                     windows += 1;
-                    let reads = read_all_acked(sh, 10 * windows).await;
+                    let reads = read_all_acked(sh, 100 * windows).await;
                     tokio::time::sleep(Duration::from_millis(120)).await;
                     sh.gate_swapped.release();
                     for r in reads { let _ = r.await; }
@@ -502,7 +502,7 @@ async fn scenario(sh: &Arc<Shared>) {
                 let _ = h.await;
                 if windows >= cfg.n.max(1) { break; }
             }
-            for h in read_all_acked(sh, 900).await { let _ = h.await; }
+            for h in read_all_acked(sh, 9000).await { let _ = h.await; }
         }
         // C20 witness: a client is held between the worker's reply and its wait for the sync while the segment
         // rolls over and the new segment is synced; released afterwards, it must still complete
@@ -542,7 +542,7 @@ async fn scenario(sh: &Arc<Shared>) {
                 tokio::time::sleep(Duration::from_millis(2 * cfg.idle_ms())).await;
                 sh.gate_replied.release();
                 let _ = hx.await;
-                for h in read_all_acked(sh, 10).await { let _ = h.await; }
+                for h in read_all_acked(sh, 100 * (_round + 1)).await { let _ = h.await; }
             }
         }
         _ => {}
